@@ -35,6 +35,12 @@ func genHistory(r *Rng, cfg *Config, n int, lsW []int, pInterpose float64) []Op 
 			ops = append(ops, genSnapshotWindow(r, cfg, lsW)...)
 			continue
 		}
+		if r.Chance(0.04) {
+			if x := genIdleRetention(r, cfg); x != nil {
+				ops = append(ops, x...)
+				continue
+			}
+		}
 		op := genLSOp(r, cfg, lsW)
 		if op.Kind != "sleep" && r.Chance(pInterpose) {
 			k := 1
